@@ -133,6 +133,7 @@ Section Contract.
       rewrite step_added. cbv zeta. rewrite join_rel by assumption.
       rewrite Hisdir. unfold after at 1 2. cbn [apply_op].
       rewrite isdir_new_head by (cbn [op_ok] in Hok; apply andb_true_iff in Hok as [Hok _];
+                                 apply andb_true_iff in Hok as [Hok _];
                                  apply andb_true_iff in Hok as [Hok _]; apply (fresh_not_mem _ _ _ Hok)).
       cbn [win_contract]. destruct k; cbn [kind_eqb dirkind andb map render app]; [reflexivity|].
       destruct recursive; [|reflexivity].
